@@ -118,3 +118,83 @@ func H_C08_bin() {
 	vobserve("ntop", uint64(k))
 	vcover("end")
 }
+
+// ---- text ------------------------------------------------------------------------------------------------------
+// H_C08_text: the text Reader reads scalars eagerly but skips container contents with a second grammar (skipper.go)
+// when the caller does not step in or steps out early. A frame (param frame) embeds k symbolic bytes X over an
+// alphabet of structural characters in a container followed by the value 2:
+//   0 [X] 2    1 (X) 2    2 {a:X} 2    3 ["X"] 2    4 [{{X==}}] 2    5 ['''X'''] 2    6 [{{"X"}}] 2    7 [/*X*/1] 2
+// For every X for which a plain full traversal succeeds, skipping the container (mode 1), stepping in and straight
+// out (mode 2) and stepping in, reading one child and stepping out (mode 3) must all arrive at the same second
+// top-level value with no error, and a full traversal through a second Reader must be unaffected.
+
+func vC08Alpha(c byte) bool {
+	switch c {
+	case '"', '\'', '{', '}', '[', ']', '(', ')', '\\', '/', '*', 'a', '1', ',', ':', ' ', '+', '=', '\n':
+		return true
+	}
+	return false
+}
+
+func vC08Frame(frame int, x []byte) []byte {
+	switch frame {
+	case 0:
+		return vCat([]byte("["), x, []byte("] 2"))
+	case 1:
+		return vCat([]byte("("), x, []byte(") 2"))
+	case 2:
+		return vCat([]byte("{a:"), x, []byte("} 2"))
+	case 3:
+		return vCat([]byte("[\""), x, []byte("\"] 2"))
+	case 4:
+		return vCat([]byte("[{{"), x, []byte("==}}] 2"))
+	case 5:
+		return vCat([]byte("['''"), x, []byte("'''] 2"))
+	case 6:
+		return vCat([]byte("[{{\""), x, []byte("\"}}] 2"))
+	default:
+		return vCat([]byte("[/*"), x, []byte("*/1] 2"))
+	}
+}
+
+func H_C08_text() {
+	k := vparam("k", 2)
+	mode := vparam("mode", 1)
+	x := vnondetBytes(k)
+	for _, c := range x {
+		vassume(vC08Alpha(c))
+	}
+	doc := vC08Frame(vparam("frame", 0), x)
+	// plain full traversal defines what the document holds (C08 quantifies over valid documents)
+	var full []vEv
+	r1 := NewReaderBytes(doc)
+	se := vTraverse(r1, 0, 8, false, &full)
+	vassume(!se && r1.Err() == nil)
+	var top []vEv
+	for _, ev := range full {
+		if ev.depth == 0 {
+			top = append(top, ev)
+		}
+	}
+	r := NewReaderBytes(doc)
+	n := 0
+	for r.Next() {
+		vassert(n < len(top), "navigation does not invent values")
+		ev := vReadCurrent(r, 0)
+		vassert(vSameHead(ev, top[n]) && vSamePayload(ev, top[n]), "top-level value identical whatever happened to the previous one")
+		if vIsContainer(ev) && mode >= 2 {
+			vassert(r.StepIn() == nil, "StepIn on a container succeeds")
+			if mode == 3 && r.Next() {
+				vPoke(r)
+				vcover("child")
+			}
+			vassert(r.StepOut() == nil, "StepOut succeeds on a valid document")
+			vcover("container")
+		}
+		n++
+	}
+	vassert(r.Err() == nil, "navigation ends without error on a valid document")
+	vassert(n == len(top), "navigation sees every top-level value")
+	vobserve("ntop", uint64(n))
+	vcover("end")
+}
